@@ -22,7 +22,7 @@ ConfigOf(cal) == [maxSize |-> Ev.in.maxSize, curMax |-> Ev.in.curMax, netLimit |
 StateMatches == numMb' = Ev.st.numMb /\ numTx' = Ev.st.numTx /\ size' = Ev.st.size
 
 TraceInit ==
-    /\ l = 1 /\ numMb = 0 /\ numTx = 0 /\ size = 0 /\ feat = {} /\ steps = 0 /\ hist = <<>>
+    /\ l = 1 /\ numMb = 0 /\ numTx = 0 /\ size = 0 /\ pend = 0 /\ feat = {} /\ steps = 0 /\ hist = <<>>
     /\ cfg = [maxSize |-> 1, curMax |-> 1, netLimit |-> 1, hashLen |-> 32, calib |-> [snd |-> 999, rcv |-> 999, type |-> 0]]
     /\ mbSize = 1 /\ txSize = 1
 TNew ==
@@ -38,7 +38,21 @@ TAdd ==
     \* the real messenger's own verdict on the real buffer is `size <= netLimit` (binds netLimit to checkSendableData)
     /\ Ev.out.sendable = (Ev.st.size <= cfg.netLimit)
 TReset == IsEvent("Reset") /\ Reset /\ StateMatches
-TraceNext == TNew \/ TAdd \/ TReset
+\* concurrent accounting by real goroutines: in.groups[g] = what goroutine g added (one miniblock / one tx hash per call).
+\* The estimator's counters are not observable directly; the Ask event carries the real answer and `fill`, the largest
+\* number of further empty miniblocks the real estimator still lets in (bisection on its own answers): both must be what
+\* the specification computes from the SUM of the increments -- a lost update changes `fill`.
+TAccumulate ==
+    /\ IsEvent("Accumulate")
+    /\ Accumulate(Ev.in.groups, Ev.in.snd, Ev.in.rcv, Ev.in.type)
+    /\ numMb' = Ev.st.numMb /\ numTx' = Ev.st.numTx
+TAsk ==
+    /\ IsEvent("Ask")
+    /\ Ask(Ev.in.throttled)
+    /\ hist'[1].out.reached = Ev.out.reached
+    /\ hist'[1].out.fill = Ev.out.fill
+    /\ size' = Ev.st.size                      \* real marshalled length of the body the estimator let through
+TraceNext == TNew \/ TAdd \/ TReset \/ TAccumulate \/ TAsk
 TraceSpec == TraceInit /\ [][TraceNext]_tvars
 
 \* observation only: the logged counters and real size become the state; features accumulate from the logged input
@@ -49,9 +63,16 @@ ObsAdd ==
     /\ numMb' = Ev.st.numMb /\ numTx' = Ev.st.numTx /\ size' = Ev.st.size /\ steps' = steps + 1
     /\ feat' = IF Ev.out.fits /\ Ev.in.count > 0
                THEN feat \cup Features(Ev.in.ntx, Ev.in.snd, Ev.in.rcv, Ev.in.type, cfg.hashLen) ELSE feat
-    /\ hist' = <<>> /\ UNCHANGED <<cfg, mbSize, txSize>>
+    /\ hist' = <<>> /\ UNCHANGED <<cfg, mbSize, txSize, pend>>
 ObsReset == IsEvent("Reset") /\ Reset
-TraceNextObs == ObsNew \/ ObsAdd \/ ObsReset
+ObsAccumulate == IsEvent("Accumulate") /\ Accumulate(Ev.in.groups, Ev.in.snd, Ev.in.rcv, Ev.in.type)
+\* the REAL answer decides whether the accumulated body counts as let through, its REAL size becomes the state
+ObsAsk ==
+    /\ IsEvent("Ask")
+    /\ IF Ev.out.reached THEN UNCHANGED <<size, pend>> ELSE size' = Ev.st.size /\ pend' = 0
+    /\ steps' = steps + 1 /\ hist' = <<>>
+    /\ UNCHANGED <<cfg, mbSize, txSize, numMb, numTx, feat>>
+TraceNextObs == ObsNew \/ ObsAdd \/ ObsReset \/ ObsAccumulate \/ ObsAsk
 TraceSpecObs == TraceInit /\ [][TraceNextObs]_tvars
 
 HighWater == TLCSet(1, IF l > TLCGet(1) THEN l ELSE TLCGet(1))
